@@ -163,7 +163,8 @@ def run(ctx):
     runs = [make_run(ctx.seed, i) for i in range(n)]
     stats = {"both_fail": 0, "ok": 0, "with_o": 0, "glob_ge3": 0, "glob_nonidentity_order": 0, "m_and_l_same_name": 0,
              "two_model_names": 0, "yaml": 0, "ini": 0, "lookup": 0, "duplicate_arg": 0, "same_pattern_twice": 0,
-             "second_command_of_its_process": 0}
+             "second_command_of_its_process": 0, "custom_generator_spelling": 0, "defaults_omitted": 0,
+             "no_merge_option": 0}
     distinct, samples = set(), []
     clock_reads, clock_min, clock_max = 0, None, None
     evaluations = 0
@@ -176,6 +177,10 @@ def run(ctx):
                 distinct.add(seeds.digest([sc["files"], sc["args"], sc["options"], rec["glob_calls"]]))
             stats["second_command_of_its_process"] += bool(r.get("after_prior_command"))
             stats["yaml"] += sc["format"] == "yaml"
+            stats["custom_generator_spelling"] += "--code-generator" in r["spec"]["argv"] if "spec" in r else \
+                bool(sc["options"].get("custom_spelling"))
+            stats["defaults_omitted"] += bool(sc["options"].get("omit_defaults"))
+            stats["no_merge_option"] += sc["options"].get("merge") is None
             stats["ini"] += sc["format"] == "ini"
             stats["with_o"] += bool(sc.get("out"))
             stats["lookup"] += any(a.get("lookup") not in (None, "-") for a in sc["args"])
